@@ -352,6 +352,9 @@ func (g *gen) pipeScript(idx int) error {
 	}
 	wmu.Lock()
 	np := panics
+	if blocked > 0 || leaks > 0 {
+		g.hard++
+	}
 	wmu.Unlock()
 	close(sub.rcmd)
 
